@@ -98,9 +98,9 @@ SampleF(w, v, i) ==
 (*    the observation `seen' (havoc + resync).                             *)
 (*  - does not fit: dst moves to a fresh array of `newcap' cells (the Go    *)
 (*    runtime picks the size; any whole number of frames >= the length is  *)
-(*    allowed), old storage untouched.  An unaligned total length that     *)
-(*    has to grow is unspecified (the runtime capacity may not admit the   *)
-(*    alignment).                                                          *)
+(*    allowed), old storage untouched.  This holds for partly filled last  *)
+(*    frames too (C12: Go append at the cell level); before the fix of the *)
+(*    library a growing append with an unaligned total could panic.        *)
 (***************************************************************************)
 WrittenByAppend(d, s) == (d.off + d.len + 1) .. (d.off + d.len + s.len)
 AppendOverlaps(d, s)  == d.a = s.a /\ Readable(s) \cap WrittenByAppend(d, s) # {}
@@ -115,7 +115,6 @@ AppendF(w, dv, sv, newcap, seen) ==
          ELSE R(W(SetCells(w.mem, d.a, [p \in WrittenByAppend(d, s) |->
                                            w.mem[s.a][s.off + (p - d.off - d.len)]]),
                   [w.views EXCEPT ![dv].len = nl]), "ok")
-    ELSE IF d.ch # 0 /\ nl % d.ch # 0 THEN R(w, "unspec")
     ELSE IF newcap >= nl /\ (d.ch = 0 \/ newcap % d.ch = 0)
          THEN R(Canon(W(Append(w.mem, [p \in 1..newcap |->
                             IF p <= d.len THEN w.mem[d.a][d.off + p]
